@@ -29,6 +29,7 @@ def main():
     ap.add_argument("--seeds", default="0,1")
     ap.add_argument("--src", default="/tmp/mut/out3")
     ap.add_argument("--offset", type=int, default=4)
+    ap.add_argument("--round", default="third")
     a = ap.parse_args()
     head = sh("git -C /repo rev-parse HEAD").stdout.strip()
     envp = {**os.environ, "PYTHONPATH": WT, "MPLBACKEND": "Agg"}
@@ -71,7 +72,7 @@ def main():
         confirmed = base.returncode == 0 and clean.returncode == 0 and mut.returncode != 0
         meta = {
             "breaks_property": a.pid,
-            "origin": "fresh sub-agent that saw only the property text and its own scratch worktree (third round)",
+            "origin": f"fresh sub-agent that saw only the property text and its own scratch worktree ({a.round} round)",
             "agent_note": open(note).read() if os.path.exists(note) else "",
             "confirmed": bool(confirmed),
             "confirmation": {"suite_same_passing_set_with_change": base.returncode == 0,
